@@ -107,10 +107,12 @@ func (p *proxy) acceptLoop() {
 		}
 		if tc, ok := b.(*net.TCPConn); ok {
 			tc.SetNoDelay(true)
-			// a small receive buffer: when the proxy holds or paces a stream the
-			// leader must feel it (its backlog copy blocks) instead of parking
-			// megabytes in socket buffers
-			tc.SetReadBuffer(8 * 1024)
+			// a fixed, moderate receive buffer (no auto-tuning up to several MB):
+			// when the proxy holds or paces a stream the leader must feel it (its
+			// backlog copy blocks) instead of parking the whole log in socket
+			// buffers. It has to stay well above the loopback MSS (64 KiB), a
+			// smaller window makes the transfer crawl.
+			tc.SetReadBuffer(256 * 1024)
 		}
 		pc := &pconn{a: a, b: b}
 		p.mu.Lock()
